@@ -841,9 +841,9 @@ fn acyclic(m: &Model, ctx: &mut Ctx) {
         if t.contains("self.remove_circular_type_references()") && call_at.is_none() {
             call_at = Some(i);
         }
-        if t.starts_with("while let Some(key)=keys.pop()") && loop_at.is_none() {
-            loop_at = Some(i);
-        }
+    }
+    if let Some(first) = crate::rules::util::link_key_loops(link).first() {
+        loop_at = Some(first.stmt_index);
     }
     match (call_at, loop_at) {
         (Some(a), Some(b)) if a < b => {}
@@ -943,27 +943,15 @@ fn withdraw(m: &Model, ctx: &mut Ctx) {
         ctx.fail_closed("C08.withdraw", "anchor not found: Validator::link");
         return;
     };
-    struct W {
-        body: Option<syn::Block>,
-    }
-    impl model::DeepCb for W {
-        fn expr(&mut self, e: &syn::Expr) {
-            if let syn::Expr::While(w) = e {
-                if self.body.is_none() && tok(&w.cond).contains("keys.pop()") {
-                    self.body = Some(w.body.clone());
-                }
-            }
-        }
-    }
-    let mut w = W { body: None };
-    model::deep_walk_block(&f.block, &mut w);
-    let Some(body) = w.body else {
-        ctx.fail_closed("C08.withdraw", "Validator::link: the loop over the popped keys was not found");
+    let loops = crate::rules::util::link_key_loops(f);
+    if loops.is_empty() {
+        ctx.fail_closed("C08.withdraw", "Validator::link: no pass over the definitions was found");
         return;
-    };
+    }
+    let stmts: Vec<syn::Stmt> = loops.iter().flat_map(|l| l.body.stmts.clone()).collect();
     let steps = ["resolve_object_set_references", "resolve_class_reference", "link_components_of_notation", "link_choice_selection_type", "link_object_set_reference", "link_constraint_reference", "collect_supertypes", "mark_recursive"];
     let mut seen = 0;
-    for st in &body.stmts {
+    for st in &stmts {
         let blk = syn::Block { brace_token: Default::default(), stmts: vec![st.clone()] };
         let called: Vec<String> = model::method_calls_in(&blk).iter().map(|mc| mc.method.to_string()).filter(|n| steps.contains(&n.as_str())).collect();
         if called.is_empty() {
